@@ -340,3 +340,62 @@ def denote(pq, lf):
         return None
     rgs = [[[(None if c == [] else c) for c in col] for col in rg] for rg in r[2]]
     return rgs
+
+
+# ---------------------------------------------------------------------------------------------
+# laid-out file description -> Gallina term (for the extraction-vs-kernel agreement check)
+
+def _g_bytes(b):
+    return "[" + "; ".join(str(x) for x in b) + "]%N"
+
+
+def _g_val(v):
+    return "VBin %s" % _g_bytes(bytes.fromhex(v["b"])) if isinstance(v, dict) else "VNum %d%%N" % v
+
+
+def _g_list(items):
+    return "[" + "; ".join(items) + "]"
+
+
+def _g_run(r):
+    return "RLE %d%%N %d%%N" % (r[1], r[2]) if r[0] == "r" else "BP %s" % _g_list("%d%%N" % v for v in r[1])
+
+
+def _g_store(st):
+    k = st[0]
+    if k == "plain":
+        return "SPlain %s" % _g_list(_g_val(v) for v in st[1])
+    if k == "dictidx":
+        return "SDict %d%%Z %d%%N %s" % (st[1], st[2], _g_list(_g_run(r) for r in st[3]))
+    if k == "rlebool":
+        return "SRleBool %s" % _g_list(_g_run(r) for r in st[1])
+    if k == "delta":
+        return "SDelta %d%%N %d%%N %s" % (st[1], st[2], _g_list("(%d)%%Z" % z for z in st[3]))
+    return "SRaw %d%%Z %s" % (st[1], _g_bytes(bytes.fromhex(st[2])))
+
+
+PTYPE_NAMES = ["BOOLEAN", "INT32", "INT64", "INT96", "FLOAT", "DOUBLE", "BYTE_ARRAY", "FLBA"]
+
+
+def lfile_gallina(lf):
+    """Gallina term of type Enc.lfile (logical types are dropped: None)"""
+    leaves = _g_list("{| ll_name := %s; ll_type := %s; ll_tlen := %d%%N; ll_optional := %s; ll_conv := %s; ll_logical := None |}" % (
+        _g_bytes(l["name"].encode()), PTYPE_NAMES[l["type"]], l["tlen"], "true" if l["optional"] else "false",
+        "None" if l.get("conv") is None else "Some %d%%Z" % l["conv"]) for l in lf["leaves"])
+    rgs = []
+    for rg in lf["rgs"]:
+        chunks = []
+        for c in rg:
+            items = []
+            for it in c["items"]:
+                if "dict" in it:
+                    items.append("LDict %d%%Z %s" % (it["dict"], _g_list(_g_val(v) for v in it["vals"])))
+                else:
+                    ic = it.get("iscomp")
+                    items.append("LData {| lp_v2 := %s; lp_nvals := %d%%N; lp_def := %s; lp_store := %s; lp_iscomp := %s; lp_trail := %s |}" % (
+                        "true" if it["v2"] else "false", it["n"], _g_list(_g_run(r) for r in it["def"]), _g_store(it["store"]),
+                        "None" if ic is None else ("Some true" if ic else "Some false"), _g_bytes(bytes.fromhex(it.get("trail", "")))))
+            chunks.append("{| lc_codec := %d%%Z; lc_items := %s; lc_stats := %s |}" % (c["codec"], _g_list(items), "true" if c["stats"] else "false"))
+        rgs.append(_g_list(chunks))
+    cb = lf.get("created_by")
+    return "{| l_leaves := %s; l_rgs := %s; l_created_by := %s |}" % (leaves, _g_list(rgs), "None" if cb is None else "Some %s" % _g_bytes(cb.encode()))
